@@ -515,6 +515,14 @@ func c12AllCheck(env *core.Env, w *c12Case) core.Verdict {
 	}
 	targets := p.targets()
 	v := core.Verdict{Status: core.Held, Features: []string{"lane:all", fmt.Sprintf("rules:%d", len(targets))}, Counts: map[string]int{}}
+	if w.Edit%3 == 1 && len(targets) > 0 {
+		// one assembly file is a symbolic link to a file kept outside regex-assembly
+		t := targets[(w.Edit/3)%len(targets)]
+		if err := (sut.Tree{"shared/" + t.Key + ".ra": t.File.Sources[t.Key], "regex-assembly/" + t.Key + ".ra": sut.SymlinkPrefix + "../shared/" + t.Key + ".ra"}).Write(root); err != nil {
+			return core.Incon("cannot write link: %v", err)
+		}
+		v.Features = append(v.Features, "assembly-file-is-link")
+	}
 	u := cli(env, root, nil, "regex", "update", "--all")
 	if u.Exit != 0 {
 		return core.Viol("update-all-fails", "update --all failed on a valid tree: %s", describe(u))
